@@ -250,7 +250,9 @@ def extra_units():
     # "upper case exactly when the consensus shows the conversion": the consensus TAPS reads is get_consensus(with_probs_and_obs)
     # and the per-read calls come from read_to_consensus_dict (C13's bounded units, re-verified under this property)
     for v in c13.UNITS:
-        if getattr(v, 'name', '').endswith('with_probs_and_obs]') or getattr(v, 'name', '').startswith('read_to_consensus_dict'):
+        # ... and Fragment.get_consensus hands the mate-overlap-safe restriction on unchanged (C13's fragment units)
+        if getattr(v, 'name', '').endswith('with_probs_and_obs]') or getattr(v, 'name', '').startswith('read_to_consensus_dict') \
+                or getattr(v, 'name', '').startswith('Fragment.get_consensus'):
             w = copy.copy(v)
             w.prop = PROP
             out.append(w)
